@@ -77,6 +77,82 @@ def run(ctx):
         if '<locals>' not in q_:
             horner_index_dtype(ctx, f_, 'gradient-form')
     check_weight_gradient(ctx, est)
+    check_candidate_marginals(ctx, est)
+
+
+CVF = 'src/mbi/clique_vector.py'
+
+
+def check_candidate_marginals(ctx, est):
+    """The loss of a candidate is computed from `CliqueVector.from_data(<weighted public data>, cliques)`: the entry stored under a clique
+    must be the weighted contingency table of THAT clique, laid out in the clique's own attribute order (the measurement's query matrix and
+    the gradient pull-back both index it in that order).  A remembered table may stand in only when its key determines the clique as
+    written (judged by the normalising front-end: a look-through leaves the plain construction, a lossy key is reported as memo-key)."""
+    from ..normalise import Defs, expand
+    calls = [c for c in calls_in(est.node) if U(c.func).endswith('from_data')]
+    if not calls:
+        return
+    if not ctx.repo.has_func(CVF, 'CliqueVector.from_data'):
+        raise AnalysisError('CliqueVector.from_data is gone although PublicInference.estimate calls it')
+    fi = ctx.repo.nfunc(CVF, 'CliqueVector.from_data')
+    ctx.analysed(fi)
+    if len(fi.params) != 2:
+        raise AnalysisError('CliqueVector.from_data: expected the parameters (data, cliques)')
+    data, cliques = fi.params
+    n = 0
+    for loop in [s for s in ast.walk(fi.node) if isinstance(s, (ast.For, ast.DictComp))]:
+        if isinstance(loop, ast.DictComp):
+            g = loop.generators[0]
+            if len(loop.generators) != 1 or U(g.iter) != cliques or not isinstance(g.target, ast.Name) or g.ifs:
+                continue
+            cl, key, val, where, defs = g.target.id, loop.key, loop.value, loop, Defs([])
+        else:
+            if U(loop.iter) != cliques or not isinstance(loop.target, ast.Name):
+                continue
+            cl = loop.target.id
+            stores = [s for s in ast.walk(loop) if isinstance(s, ast.Assign) and len(s.targets) == 1 and isinstance(s.targets[0], ast.Subscript)
+                      and isinstance(s.targets[0].value, ast.Name) and s in loop.body]
+            stores = [s for s in stores if any(isinstance(r, ast.Return) and r.value is not None and s.targets[0].value.id in names_in(r.value)
+                                               for r in ast.walk(fi.node))]
+            if len(stores) != 1:
+                if getattr(fi, 'memo_issues', None):
+                    n += 1
+                    continue          # a remembered table with a lossy key is left in place and reported as memo-key
+                raise AnalysisError('CliqueVector.from_data: the loop over the cliques does not store one table per clique in a recognised form')
+            st = stores[0]
+            key, val, where = st.targets[0].slice, st.value, st
+            defs = Defs(loop.body[:loop.body.index(st)])
+        n += 1
+        if any(isinstance(x, ast.Subscript) and isinstance(x.ctx, ast.Load) for x in ast.walk(val)) and getattr(fi, 'memo_issues', None):
+            continue                  # reads a remembered table whose key was judged lossy: reported as memo-key
+        V = expand(val, defs, comps=True)
+        ok = False
+        why = 'stores `%s`' % U(V)[:90]
+        if isinstance(V, ast.Call) and U(V.func).split('.')[-1] == 'Factor' and len(V.args) == 2:
+            d, v = V.args
+            proj = '%s.project(%s)' % (data, cl)
+            if U(d) == proj + '.domain' and U(v) == proj + '.datavector()':
+                ok = U(key) == cl
+                why = 'entry `%s` <- Factor of %s' % (U(key), proj)
+            elif isinstance(d, ast.Attribute) and d.attr == 'domain' and isinstance(v, ast.Call) and U(v.func) == U(d.value) + '.datavector' \
+                    and isinstance(d.value, ast.Call) and U(d.value.func) == data + '.project' and len(d.value.args) == 1:
+                a = d.value.args[0]
+                why = 'entry `%s` <- Factor of %s.project(%s)' % (U(key), data, U(a))
+                if U(key) == cl and isinstance(a, ast.Call) and isinstance(a.func, ast.Name) and a.func.id in ('sorted', 'set', 'frozenset') \
+                        or (isinstance(a, ast.Call) and U(a.func) in ('%s.domain.canonical' % data,)):
+                    ok = False        # recognised: a table in another attribute order than the clique's
+                    why += ' - a table in another attribute order than the clique it is stored under'
+                elif U(key) == cl and isinstance(a, ast.Call) and isinstance(a.func, ast.Name) and a.func.id in ('tuple', 'list') and len(a.args) == 1 and U(a.args[0]) == cl:
+                    ok = True
+                else:
+                    raise AnalysisError('CliqueVector.from_data: table of `%s` stored under `%s` - not a recognised form' % (U(a), U(key)))
+            else:
+                raise AnalysisError('CliqueVector.from_data: `%s` is not the contingency table of the projected data in a recognised form' % U(V)[:80])
+        else:
+            raise AnalysisError('CliqueVector.from_data: `%s` is not a Factor built from the projected data' % U(V)[:80])
+        ctx.ob('loss-form', fi, where, ok, 'the marginal handed to the loss for a clique must be the weighted table of that clique in its own attribute order: ' + why,
+               construct='table stored per clique in CliqueVector.from_data')
+    ctx.floor('per-clique tables built by CliqueVector.from_data', n, 1)
 
 
 def check_guard(ctx, fi, var):
